@@ -54,8 +54,6 @@ Weaker readings taken: a bare `assert` in ResolveVectorNotationTransformer.visit
 WHERE, marked TODO "currently limited to") counts as a refusal, like NotImplementedError; a *warning* followed
 by wrong code is a violation.
 """
-import itertools
-
 from vf import xform
 from vf.explore import deviations
 
@@ -340,7 +338,7 @@ def build_program(sw):
     if sw.get('literal_list'):
         post += [f'a({a1}:{at(("", 3), la)}) = (/ 0.5, 1.5, 2.5 /)']
     if sw.get('dt_member'):
-        post += [f't%v(1:3) = b({b1}:{at(("", 3), lb)})', 't%v(:) = t%v(:) * 2.0', 't%v(2:3) = t%v(1:2)']
+        post += [f't%v(1:3) = b({b1}:{at(("", 3), lb)})', 't%v(:) = t%v(:) * 2.0', f't%v(2:3) = t%v(2:3) + a({a1}:{a2})']
     if sw.get('lbound_use'):
         post += ['r = r + real(lbound(b, 1)) + real(ubound(a(:), 1)) * 2.0']
     if sw.get('alloc_lhs'):
@@ -400,6 +398,8 @@ PARTIAL_2D = {'col', 'row'}
 def applicable(xf, sw):
     if xf == 'rvd' and sw.get('ctx') == 'loop_same_range':
         return False
+    if 'nasa' in xf and sw.get('lbound_use') and (sw.get('lb_l') in (0, -1) or sw.get('lb_r') in (0, -1)):
+        return False    # re-basing an array at 1 changes LBOUND/UBOUND by design
     if xf == 'nasa+flatten':
         # flat storage cannot express partial sections of a rank-2 array: these go through rvn first
         if sw.get('lhs') in PARTIAL_2D or sw.get('call_section') or sw.get('call_full') or sw.get('dup_dims'):
@@ -502,6 +502,44 @@ def worker(case):
 
 worker.base = None
 
+
+def group_worker(group):
+    """all transformation variants of one program: the original (and any repeated transformed text) is built once.
+    xform.run_case is used unchanged; only its build step is memoised for the duration of the group."""
+    memo = {}
+    real = xform.build_run
+
+    def cached(sources, driver, extra=(), base=None, flags=xform.FLAGS, timeout=60):
+        key = (tuple((f, t) for f, t in sources), driver, tuple((f, t) for f, t in extra), tuple(flags))
+        if key not in memo:
+            memo[key] = real(sources, driver, extra, base=base, flags=flags, timeout=timeout)
+        return memo[key]
+    xform.build_run = cached
+    try:
+        out = [worker(case) for case in group]
+    finally:
+        xform.build_run = real
+    import os
+    if os.environ.get('VERIF_PROGRESS'):
+        with open(os.environ['VERIF_PROGRESS'], 'a') as f:
+            f.write(group[0]['id'].split('|', 1)[0] + ' ' + ' '.join(r['verdict'] for r in out) + '\n')
+    return out
+
+
+def judge_grouped(ctx, cases):
+    from vf.explore import seeded_order
+    groups = {}
+    for n, c in enumerate(cases):
+        groups.setdefault(c['id'].split('|', 1)[0], []).append(n)
+    keys = seeded_order(list(groups), ctx.seed)
+    res = ctx.pmap(group_worker, [[cases[n] for n in groups[k]] for k in keys], chunksize=1)
+    out = [None] * len(cases)
+    for k, rs in zip(keys, res):
+        for n, r in zip(groups[k], rs):
+            out[n] = r
+    return out
+
+
 PREFIX = {'rvn+nasa+flatten': ['rvn()', 'nasa()'], 'nasa+flatten': ['nasa()'], 'add+rem': ['add()']}
 _RVN0 = 'rvn(resolve_implicit_rhs_ranges=True)'
 
@@ -535,7 +573,7 @@ def run(ctx):
     cases = make_cases(d)
     worker.base = str(ctx.scratch)
     ctx.reset_pool()
-    results = xform.judge_cases(ctx, cases, worker)
+    results = judge_grouped(ctx, cases)
     by_id = {r['id']: r for r in results}
     xform.summarise(ctx, cases, results, sigfn(by_id), min_changed=20)
     per_x = {}
